@@ -360,6 +360,14 @@ class Gen:
             return ("bool", r.random() < 0.5)
         if kafka == "error_code":
             return ("int", r.choice(self.error_codes))
+        if kafka in ("timedelta_i32", "timedelta_i64") and r.random() < 0.25:
+            # the durations people configure: whole days / hours / minutes / seconds (a timedelta's `seconds` and `microseconds`
+            # parts are then zero - only `days` carries the value), both signs
+            self.count("duration:round")
+            top = 24 if kafka == "timedelta_i32" else r.choice([24, 365, 36500, 999999998])
+            ms = r.choice([r.randint(1, top) * 86400000, r.randint(1, top) * 86400000, r.randint(1, 23) * 3600000, r.randint(1, 59) * 60000,
+                           r.randint(1, 59) * 1000, 7 * 86400000, 86400000, r.randint(1, min(top, 24)) * 86400000 + r.choice([1, 1000, 3600000])])
+            return ("dur", r.choice([1, 1, -1]) * ms * 1000)
         if kafka == "timedelta_i32":
             ms = self.boundary_int(-2**31, 2**31 - 1)
             return ("dur", ms * 1000)
